@@ -237,10 +237,40 @@ def rule_b1(repo, col):
     col.decide("B1", m, init.node, okb, "binsize == 1 << binsize_bits", "binsize must be 1 << binsize_bits (iteration offset and bit split would disagree)",
                construct="def __init__: binsize", function="BitVector.__init__")
     it = c.methods.get("__iter__")
-    srcs = [norm(st) for st in walk_no_nested(it.node)]
-    okit = any(s == "o += self.binsize" for s in srcs) and any(s.startswith("for i in range(0, self.binsize)") or s.startswith("for i in range(self.binsize)") for s in srcs) \
-        and any(isinstance(n, ast.Yield) and n.value is not None and norm(n.value) in ("o + i", "i + o") for n in walk_no_nested(it.node))
-    col.decide("B1", m, it.node, okit, "__iter__ yields block offset + bit", "__iter__ must yield offset + bit with offset advancing by binsize per block",
+    from .. import dtable as _dt
+    ys = [n for n in walk_no_nested(it.node) if isinstance(n, ast.Yield) and n.value is not None]
+    loops = [n for n in it.node.body if isinstance(n, ast.For) and "blocks" in norm(n.iter)]
+    if len(ys) != 1 or len(loops) != 1 or not (isinstance(ys[0].value, ast.BinOp) and isinstance(ys[0].value.op, ast.Add)
+                                                and isinstance(ys[0].value.left, ast.Name) and isinstance(ys[0].value.right, ast.Name)):
+        raise AnalysisError("BitVector.__iter__: block loop / `yield offset + bit` not recognised")
+    names = {ys[0].value.left.id, ys[0].value.right.id}
+    bitloops = [n for n in ast.walk(loops[0]) if isinstance(n, ast.For) and n is not loops[0] and isinstance(n.target, ast.Name) and n.target.id in names]
+    if len(bitloops) != 1:
+        raise AnalysisError("BitVector.__iter__: bit loop not recognised")
+    bitv = bitloops[0].target.id
+    off = (names - {bitv}).pop()
+    okbits = norm(bitloops[0].iter) in ("range(0, self.binsize)", "range(self.binsize)")
+    tests = [n for n in ast.walk(bitloops[0]) if isinstance(n, ast.If)]
+    blockv = None
+    if isinstance(loops[0].target, ast.Name):
+        blockv = loops[0].target.id
+    elif isinstance(loops[0].target, ast.Tuple) and norm(loops[0].iter).startswith("enumerate(") and isinstance(loops[0].target.elts[1], ast.Name):
+        blockv = loops[0].target.elts[1].id
+    okbits = okbits and len(tests) == 1 and blockv is not None and norm(tests[0].test) in ("1 << %s & %s" % (bitv, blockv), "%s & 1 << %s" % (blockv, bitv), "%s >> %s & 1" % (blockv, bitv))
+    col.decide("B1", m, bitloops[0], okbits, "__iter__ tests every bit of a block", "__iter__ must test bit i of the block for every i in range(0, binsize)",
+               construct="def __iter__: bit loop", function="BitVector.__iter__")
+    inits = [st for st in it.node.body if isinstance(st, ast.Assign) and norm(st.targets[0]) == off]
+    okoff = len(inits) == 1 and norm(inits[0].value) == "0"
+    bad = []
+    for p in _dt.extract_block(loops[0].body, opaque_loops=True):
+        if p.end not in ("fall", "continue"):
+            bad.append("the block loop is left by %s" % p.end)
+            continue
+        adv = (p.env.get(off) or "").replace(" ", "")
+        if adv not in ("(%s)+(self.binsize)" % off, "%s+self.binsize" % off):
+            bad.append("on the path %s the offset becomes %s" % ([c_[0] + ("" if c_[1] else " is false") for c_ in p.conds], p.env.get(off)))
+    col.decide("B1", m, it.node, okoff and not bad, "__iter__ yields block offset + bit; the offset advances by binsize for every block on every path",
+               "__iter__ must yield offset + bit with the offset starting at 0 and advancing by binsize once per block - for EVERY block, also an empty one: %s" % ("; ".join(bad) or "offset initialisation not found"),
                construct="def __iter__: offset arithmetic", function="BitVector.__iter__")
 
 
